@@ -527,6 +527,11 @@ func segments(out string) map[int]string {
 var unitFileRe = regexp.MustCompile(`(u\d+)\.xgo:(\d+):\d+: ([^\n]*)`)
 var anyFileRe = regexp.MustCompile(`(\w+)\.xgo:(\d+):\d+: ([^\n]*)`)
 
+// The file with func main sorts after every other file of the package: the XGo compiler loads the
+// body of a function that is declared in a later file inside the scope of its first caller (a
+// compiler defect that does not depend on the conversion), so callees come first.
+const mainFile = "zz_main"
+
 type built struct {
 	p        *program
 	live     []*unit
@@ -549,7 +554,7 @@ func prepare(p *program, o *vh.Out) *built {
 	for n, s := range p.extra {
 		bt.origSrcs[n] = s
 	}
-	bt.origSrcs["main.go"] = p.mainSrc(p.units)
+	bt.origSrcs[mainFile+".go"] = p.mainSrc(p.units)
 	// convert
 	commonX, cerr := convert("common.go", commonGo)
 	if cerr != "" {
@@ -581,13 +586,13 @@ func prepare(p *program, o *vh.Out) *built {
 				live = append(live, u)
 			}
 		}
-		mainX, merr := convert("main.go", p.mainSrc(live))
+		mainX, merr := convert(mainFile+".go", p.mainSrc(live))
 		if merr != "" {
 			o.Oracle(p.kind, p.name, "conversion of main.go failed: "+merr)
 			bt.failed = merr
 			return bt
 		}
-		files := map[string]string{"main.xgo": mainX}
+		files := map[string]string{mainFile + ".xgo": mainX}
 		if !p.noCommon {
 			files["common.xgo"] = commonX
 		}
@@ -778,7 +783,12 @@ func runPrograms(progs []*program, o *vh.Out, outdir string) {
 			continue
 		}
 		if conv.BuildErr != "" {
-			o.Oracle(p.kind+"-converted-go-build-error", p.name, firstLine(conv.BuildErr)+" | "+strings.ReplaceAll(conv.BuildErr, "\n", " | "))
+			if len(p.units) == 0 {
+				// a feature program: the main file itself is the subject
+				o.Oracle(p.kind, p.name, "the Go generated from the converted program does not build: "+strings.ReplaceAll(conv.BuildErr, "\n", " | "))
+			} else if !attributeBuildErrors(bt, conv.BuildErr, o) {
+				o.Oracle(p.kind+"-converted-go-build-error", p.name, firstLine(conv.BuildErr)+" | "+strings.ReplaceAll(conv.BuildErr, "\n", " | "))
+			}
 			continue
 		}
 		if orig.Timeout || conv.Timeout {
@@ -804,6 +814,63 @@ func runPrograms(progs []*program, o *vh.Out, outdir string) {
 			o.Oracle(p.kind, p.name, fmt.Sprintf("exit status differs: go exit=%d panic=%q xgo exit=%d panic=%q", orig.Exit, orig.Panic, conv.Exit, conv.Panic))
 		}
 	}
+}
+
+var buildErrRe = regexp.MustCompile(`main\.go:(\d+):\d+: ([^\n]*)`)
+var trailingNum = regexp.MustCompile(`(\d+)(?:_\d+)?$`)
+
+// attributeBuildErrors maps `go build` errors of the generated Go file to the unit whose function
+// contains the line; true if every error could be attributed.
+func attributeBuildErrors(bt *built, buildErr string, o *vh.Out) bool {
+	fset := gotoken.NewFileSet()
+	f, err := goparser.ParseFile(fset, "main.go", bt.convGo, 0)
+	if err != nil {
+		return false
+	}
+	type span struct {
+		from, to int
+		name     string
+	}
+	var spans []span
+	for _, d := range f.Decls {
+		if fd, ok := d.(*goast.FuncDecl); ok {
+			spans = append(spans, span{fset.Position(fd.Pos()).Line, fset.Position(fd.End()).Line, fd.Name.Name})
+		}
+	}
+	all := true
+	seen := map[int]bool{}
+	ms := buildErrRe.FindAllStringSubmatch(buildErr, -1)
+	if len(ms) == 0 {
+		return false
+	}
+	for _, m := range ms {
+		line, _ := strconv.Atoi(m[1])
+		found := false
+		for _, sp := range spans {
+			if line < sp.from || line > sp.to {
+				continue
+			}
+			nm := trailingNum.FindStringSubmatch(sp.name)
+			if nm == nil {
+				break
+			}
+			idx, _ := strconv.Atoi(nm[1])
+			for _, u := range bt.live {
+				if u.idx == idx {
+					found = true
+					if !seen[idx] {
+						seen[idx] = true
+						o.Oracle(u.kind, "unit "+u.name+" of "+bt.p.name,
+							"the Go generated from the converted file does not build: "+m[2]+"\n--- original\n"+u.src+"\n--- converted\n"+u.conv)
+					}
+				}
+			}
+		}
+		if !found {
+			all = false
+		}
+	}
+	return all
 }
 
 // stripSegments returns the output lines that are not inside a unit segment.
@@ -849,7 +916,7 @@ var identRe = regexp.MustCompile(`x\.([^\s(]+)`)
 
 func lowerCases(r *vh.Rand, o *vh.Out, n int) {
 	names := []string{"Println", "A", "Z9", "already", "_Under", "ÉCOLE", "URL", "X_y", "aB", "Foo", "M", "Ünï",
-		"Map", "Range", "Go", "Type", "Func", "Select", "Mapx", "map", "Var", "Chan", "Default", "If", "IF"}
+		"Map", "Range", "Go", "Type", "Func", "Select", "Mapx", "Var", "Chan", "Default", "If", "IF"}
 	for i := 0; i < n; i++ {
 		var name string
 		if i < len(names) {
@@ -894,13 +961,18 @@ func runDirs(dir string, progs []map[string]string, timeout time.Duration) ([]xr
 		}
 		sort.Strings(names)
 		for _, n := range names {
-			if n == "main.go" {
+			if n == "main.go" && len(files) == 1 {
 				mains[i] = []byte(files[n])
 				continue
 			}
 			if err := os.WriteFile(filepath.Join(d, n), []byte(files[n]), 0o644); err != nil {
 				return nil, err
 			}
+		}
+	}
+	for i := range mains {
+		if mains[i] == nil {
+			mains[i] = []byte("package main\n") // RunBatch writes main.go; the program's files are already there
 		}
 	}
 	return xrun.RunBatch(dir, mains, timeout)
